@@ -50,6 +50,18 @@ class DiffuseGeom:
                 raise AnalysisError("RegionGeom.mcintegral has no normal exit")
         return self.mc
 
+    def run_mcintegral_again(self):
+        """a second call on the same thrown geometry with fresh arguments (what compute() does for the second
+        detection channel); returns (result, its argument nodes)"""
+        self.run_mcintegral()
+        I = self.I
+        ins = {k: I.input(k + "_2", kind="array" if k in ("triggers", "tauexitprob") else None) for k in MC_PARAMS}
+        r = I.run_method(self.obj, "mcintegral", [ins[k] for k in MC_PARAMS],
+                         kw={"lenDec": I.input("lenDec_2", kind="array"), "method": I.const("Radio")}, st=self.st)
+        if r.value is None:
+            raise AnalysisError("RegionGeom.mcintegral has no normal exit on a repeated call")
+        return r, ins
+
 
 class TargetGeom:
     """RegionGeomToO(config); throw(times)"""
